@@ -60,6 +60,10 @@ fn slices<T: E>(rng: &mut Rng, maxlen: usize, rep: &mut Report) {
             if c.as_slice() != s || &*c != s {
                 bad!("C12:sliceref-content", "as_slice/deref differ from source");
             }
+            // address and length survive *every* view, also for the empty slice
+            if c.as_slice().as_ptr() != p || c.as_slice().len() != l || (&*c).as_ptr() != p || (&*c).len() != l || c.iter().len() != l {
+                bad!("C12:sliceref-addr-len", format!("as_slice/deref view at {:?} len {} (source {:?} len {})", c.as_slice().as_ptr(), c.as_slice().len(), p, l));
+            }
             let back: &[T] = c.into();
             if back.as_ptr() != p || back.len() != l || back != &orig[off..] {
                 bad!("C12:sliceref-roundtrip", format!("back ptr {:?} len {}", back.as_ptr(), back.len()));
@@ -70,6 +74,9 @@ fn slices<T: E>(rng: &mut Rng, maxlen: usize, rep: &mut Report) {
             let mut m = CSliceMut::from(ms);
             if m.as_mut_ptr() != mp || m.as_ptr() != mp as *const T || m.len() != l || m.is_empty() != (l == 0) {
                 bad!("C12:slicemut-addr-len", format!("ptr {:?}/{:?} len {}/{}", m.as_mut_ptr(), mp, m.len(), l));
+            }
+            if (&*m).as_ptr() != mp as *const T || (&*m).len() != l || (&mut *m).as_mut_ptr() != mp || (&mut *m).len() != l {
+                bad!("C12:slicemut-addr-len", "Deref/DerefMut view of CSliceMut changed ptr/len");
             }
             {
                 let r = CSliceRef::from(&m);
@@ -115,7 +122,12 @@ fn slices<T: E>(rng: &mut Rng, maxlen: usize, rep: &mut Report) {
             {
                 // as_slice / as_slice_mut borrow the view for its whole lifetime: last use
                 let mut m3 = CSliceMut::from(&mut buf[off..]);
-                if l > 0 {
+                if l == 0 {
+                    let v = m3.as_slice_mut();
+                    if v.as_mut_ptr() != mp || v.len() != 0 {
+                        bad!("C12:slicemut-addr-len", "CSliceMut::as_slice_mut changed the address of an empty slice");
+                    }
+                } else if l > 0 {
                     let i = rng.below(l);
                     let nv = T::make(rng);
                     m3.as_slice_mut()[i] = nv;
@@ -124,6 +136,9 @@ fn slices<T: E>(rng: &mut Rng, maxlen: usize, rep: &mut Report) {
             }
             {
                 let m4 = CSliceMut::from(&mut buf[off..]);
+                if m4.as_slice().as_ptr() != mp as *const T || m4.as_slice().len() != l {
+                    bad!("C12:slicemut-addr-len", "CSliceMut::as_slice changed ptr/len");
+                }
                 if m4.as_slice() != &expect[..] {
                     bad!("C12:slicemut-write-lost", "as_slice_mut write not visible through as_slice");
                 }
